@@ -416,6 +416,14 @@ func init() {
 		s.AdoptProp = "C16"
 		return s
 	})
+	// every single damage of damage1 on the FileSystem store: what AdoptSession
+	// sees goes through the store's own List and Load
+	register("damagefs1", func() *Scenario {
+		s := mk(1)()
+		s.FSStore = true
+		s.AdoptProp = "C16"
+		return s
+	})
 	register("damagebulk1", mkBulk("pub1"))
 	register("damagebulk2", mkBulk("pub2"))
 }
